@@ -595,6 +595,11 @@ def fold_pipelines(ck: Checker, R: str):
         return cur
 
     fam = [x for x in HANDMADE] + family(ck.tier)[len(HANDMADE):len(HANDMADE) + (10 if ck.tier == 'quick' else 80)]
+    TC = it.global_value(tm, 'TransformerComposition')
+
+    def mkcomp(members):
+        it.steps = 0
+        return it.instantiate(TC, (list(members),), {})
     apply_t = it.getattr(tm, None, T, 'apply_transformers')
     cleanup = RepoFunc(it, cl, cl.func('cleanup'))
     scenarios = [
@@ -613,6 +618,10 @@ def fold_pipelines(ck: Checker, R: str):
         ('apply_transformers(c, [MUO, MUO, MDG, MDG])', lambda P, c: apply_t(c, [P['MUO'], P['MUO'], P['MDG'], P['MDG']]), lambda P: [P['MUO'], P['MUO'], P['MDG'], P['MDG']]),
         ('apply_transformers(c, [MEG, MEG])', lambda P, c: apply_t(c, [P['MEG'], P['MEG']]), lambda P: [P['MEG'], P['MEG']]),
         ('apply_transformers(c, [MUO | MDG, RRGi | MEG])', lambda P, c: apply_t(c, [P['MUO'] | P['MDG'], P['RRGi'] | P['MEG']]), lambda P: [P['MUO'], P['MDG'], P['RRGi'], P['MEG']]),
+        # compositions built directly from a list (not through the pipe operator): the declared post-passes of the members are implied all the same
+        ('TransformerComposition([MDG, MUO]).transform(c)', lambda P, c: it.getattr(tm, None, mkcomp([P['MDG'], P['MUO']]), 'transform')(c), lambda P: [P['MDG'], P['MUO']]),
+        ('apply_transformers(c, [TransformerComposition([MDG]), MEG])', lambda P, c: apply_t(c, [mkcomp([P['MDG']]), P['MEG']]), lambda P: [P['MDG'], P['MEG']]),
+        ('(MUO | TransformerComposition([MDG, RRGi])).transform(c)', lambda P, c: it.getattr(tm, None, P['MUO'] | mkcomp([P['MDG'], P['RRGi']]), 'transform')(c), lambda P: [P['MUO'], P['MDG'], P['RRGi']]),
         ('apply_transformers(c, MUO | RRGi)', lambda P, c: apply_t(c, P['MUO'] | P['RRGi']), lambda P: [P['MUO'], P['RRGi']]),
         # a pass whose declared post-pass has dependencies of its own (they must be implied too)
         ('MUO with post-pass MDG: transform(c)', lambda P, c: (P['MUO']._d.__setitem__('_post_transformers', (P['MDG'],)), it.getattr(tm, None, P['MUO'], 'transform')(c))[1],
@@ -730,6 +739,8 @@ def fold_sat_query(ck: Checker, R: str):
     probs = []
     n = 0
     fam = [x for x in HANDMADE] + family(ck.tier)[len(HANDMADE):len(HANDMADE) + (25 if ck.tier == 'quick' else 200)]
+    # no output at all: every assignment makes "all outputs" True, and the formula has no clause and no variable
+    fam += [([('a', 'INPUT', ())], []), ([('a', 'INPUT', ()), ('b', 'INPUT', ()), ('g', 'AND', ('a', 'b'))], []), ([], [])]
     for spec, outs in fam:
         n += 1
         c = build(types, spec, outs)
